@@ -616,7 +616,11 @@ func runC17(c *Ctx) *Violation {
 			seq[i] = append(seq[i], out)
 			c.C["probe.s5_checked"]++
 			if DigestCap(map[string]interface{}(S)) != d0 || DigestCap(map[string]interface{}(SS)) != dss0 {
-				return &Violation{"C17.s5-receiver-modified/" + o.Name, fmt.Sprintf("%s changed its receiver (sequential execution): now %s", o.Name, clip(Canon(map[string]interface{}(S)), 400))}
+				now := Canon(map[string]interface{}(S))
+				if DigestCap(map[string]interface{}(SS)) != dss0 {
+					now = Canon(map[string]interface{}(SS))
+				}
+				return &Violation{"C17.s5-receiver-modified/" + o.Name, fmt.Sprintf("%s changed its receiver (sequential execution): now %s", o.Name, clip(now, 400))}
 			}
 			if strings.HasPrefix(out, "COPY-SHARES:") {
 				return &Violation{"C17.s4-copy-shares", strings.TrimPrefix(out, "COPY-SHARES:")}
